@@ -14,7 +14,7 @@ import (
 // empty reads and EOF delivered together with rows) and every sequence of
 // destination sizes.
 func zzH_C17_multiReader() { zzMultiHarness(2, 2, 4, 2, false) }
-func zzH_C17_multiReader_deep() { zzMultiHarness(3, 2, 6, 3, true) }
+func zzH_C17_multiReader_deep() { zzMultiHarness(3, 2, 5, 2, true) }
 
 func zzMultiHarness(nr, maxRows, calls, maxDst int, withErr bool) {
 	var rs []ReadCloser
